@@ -108,6 +108,20 @@ EXTRA2 = {
  "C19": ("; provenance of the version map returned by handlers; legacy params subspace table; type-assertion scan of upgrade code", " A handler's successful return hands back RunMigrations' map; every registered legacy subspace gets a key table; upgrade code makes no unchecked type assertion."),
 }
 
+EXTRA3 = {
+ "C03": ("; exact-length test of decoded key material", " Decoded public-key material has exactly the curve's key size where ownership is established."),
+ "C06": ("; import loop shape; delimiter exclusion of identifiers", " The import stores every listed denom and token; identifiers exclude x/nft's key delimiter."),
+ "C07": ("; path conditions of panics in the burn genesis import; account constructors at module addresses", " No panic of the burn genesis import depends on a balance or account read; no plain account is stored at a module address."),
+ "C08": ("; stored-type validation vs. message validation (interval and language inclusion)", " Genesis validation of a stored type accepts everything the messages can store."),
+ "C09": ("; mutation of ranged maps", " No map is inserted into or deleted from while it is ranged over."),
+ "C10": ("; SDK-facing decorator and hook types in the block-processing scope", " Ante decorators and hooks handed to the SDK keep no state in process memory."),
+ "C15": ("; lost writes through value receivers", " No setter on a value receiver is called for its effect."),
+ "C17": ("; store keys that can shrink to nothing", " A store key that went through a trimming function has a non-emptiness guarantee."),
+ "C18": ("; provenance of the string the decoder splits", " DecodeFromString splits its own parameter."),
+ "C19": ("; hidden-state channels of the three data modules; contexts created by start-up code", " AOL, DID and PNFT data live in committed stores only and start-up code creates no context (restart around the upgrade height)."),
+ "C20": ("; copies into package-level slices as writes", " copy into a package-level slice counts as a write to shared state."),
+}
+
 PENDING_REASON = "check not built yet in this round (planned per DESIGN.md section 4); no claim is made until the checker rule exists"
 
 def main():
@@ -121,6 +135,8 @@ def main():
                 tech, text = tech + EXTRA[pid][0], text + EXTRA[pid][1]
             if pid in EXTRA2:
                 tech, text = tech + EXTRA2[pid][0], text + EXTRA2[pid][1]
+            if pid in EXTRA3:
+                tech, text = tech + EXTRA3[pid][0], text + EXTRA3[pid][1]
             if pid in ("C01","C02","C03","C04","C05","C06","C07","C08","C11","C12","C13","C15","C16","C18"):
                 tech, text = tech + EXTRA2["*"][0], text + EXTRA2["*"][1]
             checks.append({
